@@ -12,7 +12,7 @@ import glob, json, os, subprocess, sys
 
 ROOT = os.path.dirname(os.path.dirname(os.path.abspath(__file__)))
 wave, scratch = int(sys.argv[1]), sys.argv[2]
-ordinal = {2: "SECOND", 3: "THIRD", 4: "FOURTH", 5: "FIFTH", 6: "SIXTH", 7: "SEVENTH"}.get(wave, str(wave) + "th")
+ordinal = {2: "SECOND", 3: "THIRD", 4: "FOURTH", 5: "FIFTH", 6: "SIXTH", 7: "SEVENTH", 8: "EIGHTH"}.get(wave, str(wave) + "th")
 
 used = {}
 for mp in sorted(glob.glob(os.path.join(ROOT, "seeded", "*", "meta.json"))):
@@ -31,6 +31,9 @@ FLAVOURS_BY_WAVE = {
  7: """- A: TWO COOPERATING SITES: two small edits in different functions (or files) that each look fine - and each, applied alone, leaves the property intact - but together break it in a rare situation (one site relaxes an invariant the other silently relied on: a helper that now tolerates something, a caller that now skips something). Say in notes.md what each edit does alone.
 - B: damage left behind by an operation that FAILS or DOES NOTHING: an out-of-range Remove/Set/Insert/Swap, a Pop/Dequeue/Peek on an empty container, a Remove of an absent key, an Add of present members, a Put of an identical pair, an empty variadic call, a FromJSON that returns an error, an iterator walk that finds nothing. The failing call itself answers correctly, and so does everything checked right after it; the wrong behaviour shows only in some later, different operation.
 - C: your most devious idea for this property - something you believe even a careful reviewer and extensive automated randomized testing would probably still miss, while a user could realistically hit it. The earlier rounds already covered: comparators with large or extreme results, NaN and -0.0, named and zero-size and pointer and very wide element types, sizes in the tens of thousands, hash collisions, package-level caches and pools, position hints that survive a mutation, containers reset and re-used, containers produced by other operations, the library's own TimeComparator. Find something none of these would reach (think of the ARGUMENTS: the container's own Values() or the container itself passed back in, duplicates or both present and absent items inside one variadic call, the same call repeated twice in a row, alternating directions).""",
+ 8: """- A: TWO LIVE OBJECTS: the defect needs two objects that are alive at the same time and whose uses are interleaved - two iterators over one container, an iterator and an enumerable call, two containers of the same kind (or a container and one built from its JSON, or a result and its operand), the same container reached through two interfaces. Each object used on its own, from creation to the end, behaves perfectly; only the interleaving of calls on both shows the defect. (Stay within the property: no iterator kept across a mutation of its container.)
+- B: AN EXACT COINCIDENCE in internal arithmetic or structure: the defect shows only when two quantities that are usually different happen to be equal or adjacent - an index equal to size-1 while the capacity equals the size, start == end after a whole number of wraps, a node holding exactly the minimum number of keys next to a sibling holding exactly one more, a removal that empties a leaf which is also the right-most child, the new key equal to the current minimum or maximum, an even versus an odd order or length, a count that is exactly a power of two. Off by one in exactly one such configuration, right everywhere else.
+- C: your most devious idea for this property - something you believe even a careful reviewer and extensive automated randomized testing would probably still miss, while a user could realistically hit it. The earlier rounds already covered: comparators with large or extreme results, NaN and -0.0, named and zero-size and pointer and very wide element types, key types with String or UnmarshalText methods, sizes in the tens of thousands, hash collisions, package-level caches and pools, position hints that survive a mutation, containers reset and re-used, containers produced by other operations, damage left by failing calls, arguments that repeat members or hand the container's own Values() back, the library's own TimeComparator. Find something none of these would reach.""",
 }
 FLAVOURS = FLAVOURS_BY_WAVE.get(wave, FLAVOURS_BY_WAVE[6])
 
